@@ -182,8 +182,8 @@ def gen_budget(rnd, profile=None):
     names = rnd.sample(SRC_NAMES, n)
     want_supp = (profile == 'supp') or (profile is None and rnd.random() < 0.4)
     kind = rnd.choice(['rules', 'rules', 'rules', 'csv', 'none'])
-    if want_supp and profile == 'supp':
-        kind = 'rules'
+    if want_supp and (profile == 'supp' or kind != 'rules'):
+        kind = 'rules'      # a supplemental source is only ever looked at by a .rules expression
     sources = [gen_source(rnd, nm) for nm in names]
     if want_supp:
         sup = gen_source(rnd, SUPP_NAME, supplemental=True)
